@@ -272,6 +272,8 @@ func (x *c20SX) builtin(name string, call *ast.CallExpr, st *c20St) []c20EV {
 			}
 		case name == "append" && len(it.vs) >= 1 && !call.Ellipsis.IsValid():
 			v = x.appendTo(it.vs[0], it.vs[1:], call)
+		case name == "append" && len(it.vs) == 2 && call.Ellipsis.IsValid():
+			v = x.appendSpread(it.vs[0], it.vs[1], call)
 		}
 		out = append(out, c20EV{it.st, v})
 	}
